@@ -10,6 +10,10 @@ Streams (model `Lint.lintScript` vs `model.lint_script`, exact list equality of 
                    result), so a wrong 'unused' verdict for it changes a run (quick: all pairs + sample, thorough: full product)
   lint-flow-random random data-flow functions: small variable pools with per-variable read profiles (never read / only in
                    own updates / only in conditions / only as callee / ...), reads routed through sinks
+  lint-names       hostile names (the schema's own member / type names whole and as substrings, host-language attribute names,
+                   empty / blank / numeric / very long / non-ASCII names, message fragments) at every name position of a
+                   small script: labels, jump targets, variables, function names, callees, parameters, include urls
+  lint-names-random  programs of the other generators with their names consistently replaced by hostile spellings
   lint-shipped     every shipped include/*.bare
   lint-nested      jump-level models with function statements nested in function bodies (known finding F19)
 
@@ -459,6 +463,7 @@ def unknown_jump_check(model, w, report):
     stmts.insert(0, {'jump': {'label': tramp}})
     if scope is not None:
         fn = m['statements'][scope]['function']
+        fn['name'] = tramp + 'Fn'      # the probe calls the body under a fresh name (a function named `if` is shadowed by the builtin)
         m = {'statements': [m['statements'][scope], {'expr': {'expr': {'function': {'name': fn['name'], 'args': []}}}}]}
     else:
         m = {'statements': stmts}
@@ -1092,6 +1097,217 @@ def binding_liveness(model, stats, only=None):
 
 
 # ---------------------------------------------------------------------------------------------------------------------
+# hostile names: every name position of the model (label, jump target, assigned / read variable, function name, callee,
+# parameter, include url) filled with spellings an implementation may trip over
+#
+# The generators above take names from small fixed pools of ordinary identifiers.  Lint handles names as dictionary keys,
+# set members, sort keys and message fragments, and walks the model by its member names, so the interesting names are those
+# that coincide with (or contain) the model's own member / type names, names of dict / object attributes of the host
+# language, empty-ish, very long and non-ASCII names, and fragments of lint's own messages.
+# ---------------------------------------------------------------------------------------------------------------------
+
+def schema_words():
+    """Every type, member and enumeration-value name of the script model's schema (read from the implementation)."""
+    words = set()
+    for tname, tdef in fw.impl()['model'].BARE_SCRIPT_TYPES.items():
+        words.add(tname)
+        for d in tdef.values():
+            for key in ('members', 'values'):
+                for m in (d.get(key) or []) if isinstance(d, dict) else []:
+                    words.add(m['name'])
+    return sorted(words)
+
+
+HOST_WORDS = ['keys', 'get', 'items', 'values', 'pop', 'update', 'setdefault', 'copy', 'clear', 'sort', 'append', 'index', 'count',
+              '__class__', '__dict__', '__len__', '__contains__', '__getitem__', '__init__', '__iter__', '__hash__', '__eq__',
+              'self', 'None', 'True', 'False', 'true', 'false', 'null', 'if', 'NaN', 'Infinity', 'undefined', 'constructor',
+              'prototype', '__proto__', 'toString', 'hasOwnProperty', 'length', 'script', 'statement', 'statements0', 'globals',
+              'options', 'locals', 'systemLog', 'systemGlobalGet']
+ODD_WORDS = ['', ' ', '  ', '\t', '_', '__', '0', '1', '-1', '1.5', '1e3', '00', 'a b', ' a', 'a ', 'a\nb', '.', '..', '/', '\\', "'", 'a"b', '#', ':',
+             '{0}', '{name}', '%s', '%(name)s', '$1', '(index 0)', 'index 3)', 'Unused variable', 'Empty script', 'in function',
+             'a' * 300, 'expr' * 64, 'x' * 5000, '_' * 257,
+             '\u00e9', 'e\u0301', '\u00df', 'SS', '\u0131', '\u0130', 'I', 'i', '\u03a9', '\u2126', '\u540d\u524d', '\U0001d4b3', '\U0001f600', '\u200b', '\u00a0',
+             '\u202eabc', '\ufeff', '\uff41', '\u0430', 'A', 'a', 'Z', 'z', '\uffff', '\U00010000']
+
+
+def hostile_names():
+    """(core, rest): core = the schema's own words, whole and as a substring of a longer name; rest = all other spellings."""
+    words = schema_words()
+    core = list(words)
+    for w in words:
+        if w[:1].isalpha():
+            core += [w + 'Loop', 'sub' + w + 'ion', 'my_' + w, w.upper(), w.capitalize() + '2', w + w]
+    seen = set()
+    core = [w for w in core if not (w in seen or seen.add(w))]
+    rest = [w for w in HOST_WORDS + ODD_WORDS if not (w in seen or seen.add(w))]
+    return core, rest
+
+
+NAME_SLOTS = {'gl': 'L', 'gj': 'L', 'gv': 'v', 'gr': 'v', 'fn': 'f', 'call': 'f', 'arg': 'p', 'argr': 'p', 'fl': 'M', 'fj': 'M', 'fv': 'w',
+              'fr': 'w', 'url': 'u.bare'}
+NAME_VARIANTS = [(k,) for k in NAME_SLOTS] + [('gl', 'gj'), ('gv', 'gr'), ('fn', 'call'), ('arg', 'argr'), ('fl', 'fj'), ('fv', 'fr'),
+                                              tuple(NAME_SLOTS)]
+
+
+def name_template(n):
+    """A small script with one name slot per name position (definition and use separately)."""
+    log = lambda e: {'expr': {'expr': {'function': {'name': 'systemLog', 'args': [e]}}}}   # noqa: E731
+    return {'statements': [
+        {'include': {'includes': [{'url': n['url']}]}},
+        {'expr': {'name': n['gv'], 'expr': {'number': 1.0}}},
+        {'jump': {'label': n['gj'], 'expr': {'variable': n['gr']}}},
+        log({'string': 'not jumped'}),
+        {'label': n['gl']},
+        {'function': {'name': n['fn'], 'args': [n['arg'], 'other'], 'statements': [
+            {'expr': {'name': n['fv'], 'expr': {'binary': {'op': '+', 'left': {'variable': n['argr']}, 'right': {'number': 1.0}}}}},
+            {'jump': {'label': n['fj'], 'expr': {'variable': n['fr']}}},
+            log({'variable': 'other'}),
+            {'label': n['fl']},
+            {'return': {'expr': {'variable': n['fr']}}}]}},
+        log({'function': {'name': n['call'], 'args': [{'number': 2.0}, {'number': 3.0}]}}),
+    ]}
+
+
+def name_sweep(rng, full):
+    """(id, model): a hostile name at one position / at a definition-use pair / at every position of the template.
+    The schema's member names take every variant; the other spellings 'all' + two sampled variants unless `full`."""
+    core, rest = hostile_names()
+    members = {w for w in schema_words() if w[:1].islower()}     # member names: the keys lint itself looks up
+    out = []
+    for group, names in (('core', core), ('rest', rest)):
+        for h in names:
+            variants = NAME_VARIANTS
+            if not full and not (h in members):
+                variants = [NAME_VARIANTS[-1]] + rng.sample(NAME_VARIANTS[:-1], 2)
+            for var in variants:
+                n = dict(NAME_SLOTS)
+                for k in var:
+                    n[k] = h
+                out.append((f'names:{"+".join(var) if len(var) < len(NAME_SLOTS) else "all"}:{h[:40]!r}', name_template(n)))
+    return out
+
+
+def rename_model(model, vmap, lmap, umap):
+    """Consistent renaming: variables / functions / parameters by vmap, labels and jump targets by lmap, include urls by umap."""
+    def ex(e):
+        (k, v), = e.items()
+        if k == 'variable':
+            return {k: vmap.get(v, v)}
+        if k in ('number', 'string'):
+            return {k: v}
+        if k == 'group':
+            return {k: ex(v)}
+        if k == 'unary':
+            return {k: {'op': v['op'], 'expr': ex(v['expr'])}}
+        if k == 'binary':
+            return {k: {'op': v['op'], 'left': ex(v['left']), 'right': ex(v['right'])}}
+        d = {'name': vmap.get(v['name'], v['name'])}
+        if 'args' in v:
+            d['args'] = [ex(a) for a in v['args']]
+        return {k: d}
+
+    def stm(s):
+        (k, v), = s.items()
+        if k == 'expr':
+            d = {'name': vmap.get(v['name'], v['name'])} if 'name' in v else {}
+            d['expr'] = ex(v['expr'])
+            return {k: d}
+        if k == 'jump':
+            d = {'label': lmap.get(v['label'], v['label'])}
+            if 'expr' in v:
+                d['expr'] = ex(v['expr'])
+            return {k: d}
+        if k == 'return':
+            return {k: {'expr': ex(v['expr'])} if 'expr' in v else {}}
+        if k == 'label':
+            return {k: lmap.get(v, v)}
+        if k == 'include':
+            return {k: {'includes': [dict(i, url=umap.get(i['url'], i['url'])) for i in v['includes']]}}
+        d = dict(v, name=vmap.get(v['name'], v['name']), statements=[stm(x) for x in v['statements']])
+        if 'args' in v:
+            d['args'] = [vmap.get(a, a) for a in v['args']]
+        return {k: d}
+    return {'statements': [stm(s) for s in model['statements']]}
+
+
+def names_of(model):
+    """-> (variable / function / parameter names, label names, urls) of a model; library function names are left out."""
+    lib = fw.impl()['library'].SCRIPT_FUNCTIONS
+    vs, ls, us = set(), set(), set()
+
+    def ex(e):
+        (k, v), = e.items()
+        if k == 'variable':
+            vs.add(v)
+        elif k == 'group':
+            ex(v)
+        elif k == 'unary':
+            ex(v['expr'])
+        elif k == 'binary':
+            ex(v['left'])
+            ex(v['right'])
+        elif k == 'function':
+            if v['name'] not in lib and v['name'] != 'if':
+                vs.add(v['name'])
+            for a in v.get('args', []):
+                ex(a)
+
+    def stm(s):
+        (k, v), = s.items()
+        if k == 'expr':
+            if 'name' in v:
+                vs.add(v['name'])
+            ex(v['expr'])
+        elif k == 'jump':
+            ls.add(v['label'])
+            if 'expr' in v:
+                ex(v['expr'])
+        elif k == 'return':
+            if 'expr' in v:
+                ex(v['expr'])
+        elif k == 'label':
+            ls.add(v)
+        elif k == 'include':
+            us.update(i['url'] for i in v['includes'])
+        else:
+            vs.add(v['name'])
+            vs.update(v.get('args', []))
+            for x in v['statements']:
+                stm(x)
+    for s in model['statements']:
+        stm(s)
+    return sorted(vs - set(lib)), sorted(ls), sorted(us)
+
+
+def hostile_renaming(rng, model, pool):
+    """The same program with (most of) its names replaced, consistently and injectively per name space, by hostile spellings."""
+    vs, ls, us = names_of(model)
+    maps = []
+    for names in (vs, ls, us):
+        chosen = [x for x in names if rng.random() < 0.75]
+        free = [h for h in pool if h not in names and not h.startswith(FRESH)]
+        maps.append(dict(zip(chosen, rng.sample(free, len(chosen)))))
+    return rename_model(model, *maps)
+
+
+def hostile_random_cases(rng, n):
+    core, rest = hostile_names()
+    pool = core + rest
+    out = []
+    for i in range(n):
+        k = i % 3
+        if k == 0:
+            base = JumpGen(rng).model()
+        else:
+            got = flow_random_cases(rng, 1) if k == 1 else structured_cases(rng, 1)
+            if not got:
+                continue
+            base = got[0][1]
+        out.append((f'hostile{i}', hostile_renaming(rng, base, pool)))
+    return out
+
+
+# ---------------------------------------------------------------------------------------------------------------------
 # streams
 # ---------------------------------------------------------------------------------------------------------------------
 
@@ -1321,6 +1537,22 @@ def streams(ctx):
               'non-trivial = renaming the binding of at least one variable changes the run',
               flow_random_cases(rng, ctx.scale(1200, 12000)), semantic_cap=1000, liveness=True)
 
+    rng = ctx.rng('lint-names')
+    run_cases(ctx, 'lint-names', 'hostile names at every name position of a small script (global / function label, jump target, assigned / '
+              'read variable, function name, callee, parameter, its read, include url; one position, a definition-use pair, or all at '
+              "once): the schema's own type / member / operator names (read from BARE_SCRIPT_TYPES) whole and as substring of a longer "
+              'name, dict / object attribute names of the host language (keys, get, __class__, ...), literals (true, null, if), empty and '
+              'blank names, numerals, quotes / format directives / fragments of lint messages, names of 300-5000 characters, non-ASCII '
+              '(composed / decomposed, case-folding pitfalls, astral, zero-width, bidi, U+FFFF); quick = every variant for the schema\'s '
+              'member names + a sample for the others, thorough = every variant for every name; non-trivial = at least one warning',
+              name_sweep(rng, full=not ctx.quick))
+
+    rng = ctx.rng('lint-names-random')
+    run_cases(ctx, 'lint-names-random', 'programs of the jump-level, data-flow and source generators with 3/4 of their names (variables, '
+              'functions, parameters / labels / include urls; each name space separately, consistently and injectively) replaced by '
+              'hostile spellings from the same pool; non-trivial = at least one warning',
+              hostile_random_cases(rng, ctx.scale(900, 9000)))
+
     run_cases(ctx, 'lint-pointless-shapes', 'ALL unassigned expression statements whose expression is a tree of depth <= 2 (thorough: 3) over '
               '{variable, number, call bump(), group, unary -, unary !, binary + and &&} with at most 3 leaves, in a script that defines '
               'bump (logs and counts), at top level and inside a function: pointless iff the tree holds no call; every reported '
@@ -1351,7 +1583,7 @@ def streams(ctx):
     run_cases(ctx, 'lint-nested', 'jump-level models in which function bodies may contain function statements (finding F19: lint does '
               'not look inside them); the model mirrors the non-descending behaviour; non-trivial = at least one warning', nested,
               semantic_cap=3)
-    for name in ('lint-corpus', 'lint-structured', 'lint-jump', 'lint-nested', 'lint-pointless-shapes', 'lint-flow-sites', 'lint-flow-random'):
+    for name in ('lint-corpus', 'lint-structured', 'lint-jump', 'lint-nested', 'lint-pointless-shapes', 'lint-flow-sites', 'lint-flow-random', 'lint-names', 'lint-names-random'):
         ctx.streams[name].exhaustive = False
 
 
